@@ -146,6 +146,7 @@ ORDER = ['C%02d' % i for i in range(1, 19)]
 
 # whole-function theorems against Spec/* (a transcription of FIPS 204 that mentions nothing of the crate); appended to the claim text
 LITERAL = {
+ 'C06': "Literal specification (Props/C06b): the same injectivity / disjointness facts read on the formatted messages exactly as Spec.sign / verify / hashSign / hashVerify (Algorithms 2-5 as written) build them, for contexts of at most 255 bytes; the three OIDs of Spec.oidAndDigest are pairwise different and of equal length.",
  'C18': "Literal specification (Props/C18c): the standard's own transforms multiply in Z_q[X]/(X^256+1): Spec.invNtt(Spec.ntt a ∘ Spec.ntt b) is the canonical representative of the schoolbook product reduced by X^256 = -1, for all a, b.",
  'C09': "Literal specification (Props/C09d): on Spec/* alone, pkEncode(pkDecode(pk)) = pk for every byte string of public-key length (so Algorithm 23 is injective) and skEncode(skDecode(sk)) = sk for every private-key string whose s1, s2 sections decode into [-eta, eta].",
  'C05': "Literal specification (Props/C05c): the same two collision theorems stated on Spec.verify / Spec.hashVerify (Algorithms 3 / 5 as written), with no reference to the crate: two accepted interpretations of one signature, or one tuple accepted under two public-key byte strings, exhibit a pre-hash or SHAKE256 collision.",
